@@ -62,6 +62,15 @@ Theorem C16_free_text : forall P json5 is_null raw,
   parse_line raw = None /\ classify P json5 is_null raw = LFree (free_value raw).
 Proof. exact free_text_stmt. Qed.
 
+(* a general comment  /* ... */  of a doc comment group (one entry of go/ast's comment list whatever it
+   spans) is not of the form: whatever stands between the markers - line feeds, lines that look like
+   annotations - it is one free-text entry, kept with its markers, and never an attribute.  (The check
+   writes such blocks into Go source text and runs go/parser + gast.MapDocListToCommentBlock on them.) *)
+Theorem C16_general_comment_free : forall P json5 is_null body,
+  parse_line (s "/*" ++ body) = None /\
+  classify P json5 is_null (s "/*" ++ body) = LFree (trim_blanks (s "/*" ++ body)).
+Proof. exact general_comment_free. Qed.
+
 (* attribute order is source order; free-text lines keep their comment index *)
 Theorem C16_order : forall P json5 is_null lines h,
   holder P json5 is_null lines = Some h ->
@@ -133,6 +142,15 @@ Example C16_holder_nonvacuous :
     description str h = bs [82;101;116;117;114;110;115;32;116;104;101;32;117;115;101;114;10;119;105;116;104;32;116;104;101;32;103;105;118;101;110;32;105;100]%N.
 Proof. exact demo_holder. Qed.
 
+(* a general comment over four source lines with annotation-shaped lines inside, free text after it:
+   one entry (index 0), the next comment has index 1 and still belongs to the description *)
+Example C16_general_comment_nonvacuous :
+  exists h, holder str toy_json5 toy_null [demo_general; s "// Archived widgets are left out."; s "// @Method(GET)"] = Some h /\
+    map (fun a => (a_name a, a_value a)) (h_attrs h) = [ (s "Method", s "GET") ] /\
+    h_frees h = [ (0, demo_general); (1, s "Archived widgets are left out.") ] /\
+    description str h = demo_general ++ [c_lf] ++ s "Archived widgets are left out.".
+Proof. exact demo_general_holder. Qed.
+
 Example C16_description_nonvacuous :
   exists h, holder str toy_json5 toy_null [s "// free"; s "// @Description the text"; s "// @Description other"] = Some h /\
     description str h = s "the text".
@@ -167,6 +185,8 @@ Print Assumptions C16_match_sound.
 Print Assumptions C16_shaped_complete.
 Print Assumptions C16_free_text.
 Print Assumptions C16_order.
+Print Assumptions C16_general_comment_free.
+Print Assumptions C16_general_comment_nonvacuous.
 Print Assumptions C16_description.
 Print Assumptions C16_bad_json.
 Print Assumptions C16_error_iff.
